@@ -226,7 +226,7 @@ class PG:
 
 def gen_program(rng):
     pg = PG(rng, CFG_NAMES, SYM_NAMES)
-    kind = rng.choice(['expr', 'expr', 'multi', 'multi', 'multi', 'long', 'raises', 'global', 'callable', 'annot', 'semi'])
+    kind = rng.choice(['expr', 'expr', 'multi', 'multi', 'multi', 'long', 'raises', 'global', 'callable', 'annot', 'semi', 'oddchar'])
     lines = []
     if kind == 'expr':
         lines = [pg.expr(rng.choice([1, 2, 3]))]
@@ -256,6 +256,20 @@ def gen_program(rng):
             lines += ['t = ";".join(["a", "b"])', f"f'{{t}};{{{a}}}'"]
         else:
             lines += [f'u = "a;b".split(";"); w = len(u)', f'w + {a}']
+    elif kind == 'oddchar':
+        # characters str.splitlines() breaks at but Python's tokenizer does not (form feed, vertical tab, FS/GS/RS, NEL, LS, PS): inside a
+        # string literal they are ordinary characters - the code must reach the compiler as it was written (round 9, C12-i)
+        ch = rng.choice(ODD_CHARS)
+        a = pg.int_name()
+        form = rng.choice(['triple', 'single', 'split', 'comment'])
+        if form == 'triple':
+            lines += [f"s = '''a{ch}b'''", f"(s, len(s), {a})"]
+        elif form == 'single':
+            lines += [f"'p{ch}q' + str({a})"]
+        elif form == 'split':
+            lines += [f"parts = 'x{ch}y{ch}z'.split('{ch}')", f"(parts, len(parts), {a})"]
+        else:
+            lines += [f"t = {a}  # note{ch} t = -1", f"(t, 'u{ch}')"]
     elif kind == 'annot':
         # annotations are expressions like any other: evaluated when the def / the annotated assignment runs, over the same names
         a, b = pg.int_name(), pg.int_name()
@@ -287,6 +301,8 @@ def gen_program(rng):
     return '\n'.join(lines), kind, sorted(pg.used_cfg)
 
 
+ODD_CHARS = ['\x0c', '\x0b', '\x1c', '\x1d', '\x1e', '\x85', '\u2028', '\u2029']
+FSTR_ODD = ['{c0}%s{c1}', 'a%sb {c2}', '{c0!r}%s']
 FSTR = ['{max} {abs}', '{c0} and {c1 + 1}', 'x={s0!r} y={c2:>5}', '{elems[0]:03d}|{data["a"]}', '{c0 * 2:.2f} {helper(c1)}', 'plain', '{sum(x for x in elems)}',
         '{c3} shadowed by a symbol', '{ {"k": c0}["k"] }', "{'%s' % c1}", '{len(elems)}{len2 if False else ""}', "{data['a']} and {data[\"b\"]}", "it's {c0}",
         "{c0}\n{c1 + 1}", "'{c0}'"]
@@ -317,6 +333,8 @@ def gen_case(rng, tier):
     if rng.random() < 0.2:
         code, kind, used = rng.choice(FSTR), 'fstr', ['c0']
         spelling = rng.choice(['tag', 'sq', 'dq'])
+        if rng.random() < 0.12:
+            code, spelling = rng.choice(FSTR_ODD) % rng.choice(ODD_CHARS), 'tag'
         if ': ' in code or ' #' in code or '\n' in code or ("'" in code and spelling == 'sq') or ('"' in code and spelling == 'dq'):
             spelling = 'tag'             # the implicit forms must be plain YAML scalars and valid Python literals as they stand
         if sys.version_info >= (3, 12) and rng.random() < 0.3:
